@@ -75,12 +75,22 @@ fn regs_used(lines: &[Line], span: (usize, usize)) -> BTreeSet<u8> {
     s
 }
 
-struct Mutation {
-    lines: Vec<Line>,
+pub struct Mutation {
+    pub lines: Vec<Line>,
     expect: &'static str,
     accept: Vec<usize>,
     reg: Option<u8>,
     monitor: Vec<&'static str>,
+}
+
+/// The first read of `t`: either `add acc, acc, t`, or an instruction that reads *and* writes
+/// `t` (`addi t, t, 1`) followed by the use of the result.
+fn first_use(acc: u8, t: u8, ch: &mut Choices) -> Vec<Line> {
+    match ch.below(3) {
+        0 => vec![ins("add", vec![r(acc), r(acc), r(t)])],
+        1 => vec![ins("addi", vec![r(t), r(t), i(ch.int_in(1, 4))]), ins("add", vec![r(acc), r(acc), r(t)])],
+        _ => vec![ins("add", vec![r(t), r(t), r(acc)]), ins("xor", vec![r(acc), r(acc), r(t)])],
+    }
 }
 
 fn insert(lines: &[Line], at: usize, new: Vec<Line>) -> Vec<Line> {
@@ -99,7 +109,7 @@ fn pick_func<'a>(info: &'a CleanInfo, ch: &mut Choices, pred: impl Fn(&FuncMeta)
     }
 }
 
-fn mutate(class: &str, lines: &[Line], info: &CleanInfo, ch: &mut Choices) -> Option<Mutation> {
+pub fn mutate(class: &str, lines: &[Line], info: &CleanInfo, ch: &mut Choices) -> Option<Mutation> {
     let main = &info.funcs[0];
     match class {
         "modify-unsaved-saved-register" => {
@@ -194,7 +204,7 @@ fn mutate(class: &str, lines: &[Line], info: &CleanInfo, ch: &mut Choices) -> Op
                 end += 1;
             }
             let acc = f.locals[0];
-            let mut v = insert(lines, end, vec![ins("add", vec![r(acc), r(acc), r(t)])]);
+            let mut v = insert(lines, end, first_use(acc, t, ch));
             v = insert(&v, start, vec![ins("li", vec![r(t), i(ch.int_in(1, 9))])]);
             Some(Mutation {
                 lines: v,
@@ -217,7 +227,7 @@ fn mutate(class: &str, lines: &[Line], info: &CleanInfo, ch: &mut Choices) -> Op
             let acc = f.locals[0];
             let at = f.body_start;
             Some(Mutation {
-                lines: insert(lines, at, vec![ins("add", vec![r(acc), r(acc), r(t)])]),
+                lines: insert(lines, at, first_use(acc, t, ch)),
                 expect: "invalid-use-before-assignment",
                 accept: vec![at],
                 reg: Some(t),
@@ -270,7 +280,19 @@ fn mutate(class: &str, lines: &[Line], info: &CleanInfo, ch: &mut Choices) -> Op
             let off = f.frame + 4 * ch.int_in(0, 2);
             let at = f.body_start;
             let (new, mon): (Vec<Line>, Vec<&'static str>) = if ch.chance(1, 2) {
-                (vec![ins("sw", vec![r(acc), m(off, SP)])], vec!["store-at-or-above-entry-sp"])
+                // stores of any width and of any source register, the zero register included
+                let src = if ch.chance(1, 3) { ZERO } else { acc };
+                let mn = ch.pick_str(&["sw", "sw", "sh", "sb"]);
+                (vec![ins(mn, vec![r(src), m(off, SP)])], vec!["store-at-or-above-entry-sp"])
+            } else if ch.chance(1, 3) {
+                let used = regs_used(lines, f.span);
+                let free: Vec<u8> = TEMPS.iter().copied().filter(|t| !used.contains(t)).collect();
+                if free.is_empty() {
+                    return None;
+                }
+                let t = *ch.pick(&free);
+                let mn = ch.pick_str(&["lb", "lbu", "lh", "lhu"]);
+                (vec![ins(mn, vec![r(t), m(off, SP)]), ins("add", vec![r(acc), r(acc), r(t)])], vec![])
             } else {
                 let used = regs_used(lines, f.span);
                 let free: Vec<u8> = TEMPS.iter().copied().filter(|t| !used.contains(t)).collect();
